@@ -140,6 +140,7 @@ func Load(cfg LoadConfig) (*Prog, error) {
 			}
 		}
 	}
+	p.buildCanon()
 	return p, nil
 }
 
@@ -243,6 +244,19 @@ func FuncName(f *ssa.Function) string {
 	s = strings.ReplaceAll(s, modPath+"/", "")
 	s = strings.ReplaceAll(s, modPath+".", "")
 	s = strings.ReplaceAll(s, "github.com/weedbox/", "")
+	// canonical names of renamed unexported identifiers (canon.go)
+	for g := f; g != nil; g = g.Parent() {
+		if o, ok := g.Object().(*types.Func); ok {
+			if cn := canonFuncObjName(o); cn != o.Name() {
+				s = replaceWord(s, o.Name(), cn)
+			}
+		}
+	}
+	for tn, cn := range canon.typ {
+		if tn.Name() != cn {
+			s = replaceWord(s, tn.Name(), cn)
+		}
+	}
 	return s
 }
 
@@ -302,7 +316,7 @@ func (p *Prog) Method(t *types.Named, name string) *ssa.Function {
 	for _, tt := range []types.Type{types.NewPointer(t), t} {
 		ms := p.SSA.MethodSets.MethodSet(tt)
 		for i := 0; i < ms.Len(); i++ {
-			if ms.At(i).Obj().Name() == name {
+			if mo, _ := ms.At(i).Obj().(*types.Func); mo != nil && canonFuncObjName(mo) == name {
 				f := p.SSA.MethodValue(ms.At(i))
 				if f != nil && f.Synthetic != "" {
 					// wrapper for value-receiver method via pointer: find the real one
